@@ -412,6 +412,24 @@ func (r *zzRig) prefixInputs(kind int, value []byte, ownFirstBroadcast *specqbft
 		in = r.prefixInputs(3, value, ownFirstBroadcast)
 		return append(in, nil, zzLoop, nil, zzLoop)
 	}
+	if kind == 11 {
+		// the operator LEADS round 2 and is in it (timeout, own round-change looped back); a round-change of a peer
+		// that prepared value P in round 1 (with its prepare quorum as justification) has arrived; the next
+		// round-change completes the quorum (which value the leader proposes then depends on the delivery order)
+		zzAssume(zzLeader(r.share, r.height, 2) == r.share.OperatorID)
+		oth := r.others()
+		pv := []byte{5}
+		proot, _ := zzHashDataRoot(pv)
+		var ps []*specqbft.SignedMessage
+		for k := 0; k < int(r.share.Quorum); k++ {
+			ps = append(ps, zzHonest(r.share.Committee[k].OperatorID, r.msg(specqbft.PrepareMsgType, 1, proot), nil))
+		}
+		j, _ := specqbft.MarshalJustifications(ps)
+		m := r.msg(specqbft.RoundChangeMsgType, 2, proot)
+		m.DataRound = 1
+		m.RoundChangeJustification = j
+		return append(in, nil, zzLoop, zzHonest(oth[0], m, pv))
+	}
 	if kind == 10 {
 		// round 2 reached through a completed round change: own round-change looped back plus two more (a quorum
 		// for the CURRENT round is held), then one round-change for round 3
@@ -547,7 +565,7 @@ func ZZHarnessDiff() {
 	if p := int(zzParam("PREFIX")); p > 0 {
 		kind = p - 1
 	} else {
-		kind = zzChoose("prefix", 11)
+		kind = zzChoose("prefix", 12)
 	}
 	var first *specqbft.SignedMessage
 	if len(a.net.msgs) > 0 {
